@@ -61,7 +61,8 @@ def shape_word(x):
     return "na" if not isinstance(x, np.ndarray) else "s:" + ",".join(map(str, x.shape))
 
 
-def history(out: Outcome, rng, cls, lines, expect) -> None:
+def history(out: Outcome, rng, cls, lines, expect, well_formed: bool = False) -> None:
+    """well_formed: every sample has a shape the detector accepts, so that every detector gets several successful compare calls in every run"""
     det = cls()
     uni = cls not in MULTI
     lines.append(f"x bn {'u' if uni else 'm'} {2 if cls is CVMTest else 0}")
@@ -73,11 +74,13 @@ def history(out: Outcome, rng, cls, lines, expect) -> None:
     fit_no = 0
     for step in range(rng.randint(6, 14)):
         r = rng.random()
-        shape = rng.choice([(), (5,), (4,), (5, 1), (4, 1), (5, 2), (4, 3), (4, 1, 2)]) if rng.random() < 0.45 else rng.choice(good)
-        x = make_array(rng, shape) if rng.random() > 0.1 else rng.choice([[1.0, 2.0, 3.0], 3.5, None])
+        shape = rng.choice([(), (5,), (4,), (5, 1), (4, 1), (5, 2), (4, 3), (4, 1, 2)]) if (rng.random() < 0.45 and not well_formed) else rng.choice(good)
+        if well_formed and cls in MULTI:
+            shape = (shape[0], 2)
+        x = make_array(rng, shape) if (rng.random() > 0.1 or well_formed) else rng.choice([[1.0, 2.0, 3.0], 3.5, None])
         if cls is ChiSquareTest and isinstance(x, np.ndarray) and x.ndim == 1:
             x = np.array([rng.choice(["a", "b", "c"]) for _ in range(max(3, x.shape[0]))])
-        op = "fit" if r < 0.3 else ("reset" if r < 0.4 else "compare")
+        op = "fit" if (r < 0.3 or (well_formed and step == 0)) else ("reset" if (r < 0.4 and not well_formed) else "compare")
         before = snap(det)
         ref_bytes = None if det.X_ref is None else det.X_ref.tobytes()
         arg_bytes = x.tobytes() if isinstance(x, np.ndarray) else None
@@ -285,6 +288,7 @@ def run(out: Outcome) -> None:
     for cls in UNIV + MULTI:
         for _ in range(6 if thorough else 2):
             history(out, rng, cls, lines, expect)
+        history(out, rng, cls, lines, expect, well_formed=True)
     dimension_table(out, rng)
     column_vector_cases(out, rng)
     streaming(out, rng)
